@@ -103,4 +103,42 @@ theorem zipWith_sub_drop_take : ∀ d : List Rat,
       simp only [List.take_succ_cons, List.zipWith_cons_cons, diffs]
       rw [← ih]
 
+@[simp] theorem zipWith_sub_tail_take (d : List Rat) :
+    List.zipWith (fun x1 x2 => x1 - x2) d.tail (d.take (d.length - 1)) = diffs d := by
+  have h := zipWith_sub_drop_take d
+  simpa using h
+
+theorem tail1_init1_of_ndim_one {a : Arr} (h : a.ndim = 1) :
+    ∃ s, tail1 a = .ok ⟨s, a.data.drop 1⟩ ∧ init1 a = .ok ⟨s, a.data.take (a.data.length - 1)⟩ := by
+  rcases a with ⟨s, d⟩
+  match s, h with
+  | [k], _ => exact ⟨[k - 1], by simp [tail1, Arr.prodL], by simp [init1, Arr.prodL]⟩
+
+@[simp] theorem sub_same_shape (s : List Nat) (d1 d2 : List Rat) :
+    sub ⟨s, d1⟩ ⟨s, d2⟩ = .ok ⟨s, List.zipWith (· - ·) d1 d2⟩ := by
+  simp [sub]
+
+/-- `x[1:] - x[:-1]` of a 1-d array is the model's `diffs` -/
+theorem sub_tail_init_of_ndim_one {a : Arr} (h : a.ndim = 1) :
+    ∃ s, tail1 a = .ok ⟨s, a.data.drop 1⟩ ∧ init1 a = .ok ⟨s, a.data.take (a.data.length - 1)⟩ ∧
+      sub ⟨s, a.data.drop 1⟩ ⟨s, a.data.take (a.data.length - 1)⟩ = .ok ⟨s, diffs a.data⟩ := by
+  obtain ⟨s, h1, h2⟩ := tail1_init1_of_ndim_one h
+  exact ⟨s, h1, h2, by rw [sub_same_shape, zipWith_sub_drop_take]⟩
+
+theorem zipWith_or_map (f g : Rat → Bool) : ∀ d : List Rat,
+    List.zipWith (· || ·) (d.map f) (d.map g) = d.map fun x => f x || g x
+  | [] => rfl
+  | x :: t => by simp [zipWith_or_map f g t]
+
+/-- `np.logical_or(x < a, x > b)` of ONE array -/
+@[simp] theorem maskOr_mapB (f g : Rat → Bool) (a : Arr) :
+    maskOr (mapB f a) (mapB g a) = .ok (mapB (fun x => f x || g x) a) := by
+  simp [maskOr, mapB]
+
+@[simp] theorem listGet_nil {α : Type} (k : Nat) : listGet ([] : List α) k = .error .indexError := rfl
+@[simp] theorem listGet_cons_zero {α : Type} (x : α) (xs : List α) : listGet (x :: xs) 0 = .ok x := rfl
+
+@[simp] theorem beq_nat (a b : Nat) : (a == b) = decide (a = b) := by
+  by_cases h : a = b <;> simp [h]
+
 end Mir.PyV
